@@ -81,6 +81,8 @@ FH = {
 
 def content(n: int, seed: int | None = None, zero=False) -> bytes:
     """Seed dependent, non-zero, position-distinct (mod 251) byte values."""
+    if zero == "ff":  # all-ones content: the modular checksum's word sum overflows 2^32 from the second word on
+        return bytes([0xFF]) * n
     if zero:
         return bytes(n)
     s = SEED if seed is None else seed
